@@ -15,8 +15,20 @@ import (
 	"0chain.net/chaincore/block"
 	zbls "0chain.net/chaincore/threshold/bls"
 	"0chain.net/core/encryption"
+	"github.com/0chain/common/core/logging"
 	"github.com/herumi/bls-go-binary/bls"
+	"go.uber.org/zap"
 )
+
+func init() {
+	// the repository code logs through these globals; they are nil until a node's main() sets them
+	if logging.Logger == nil {
+		logging.Logger = zap.NewNop()
+	}
+	if logging.N2n == nil {
+		logging.N2n = zap.NewNop()
+	}
+}
 
 type World struct {
 	T, N     int
